@@ -9,10 +9,12 @@ package snps
 //@   modifies cSNPs, cErr
 //@   loop 1:
 //@     invariant len(sent(cErr)) == 0 && len(sent(cSNPs)) == range_i
+//@     invariant [c12.sent.allocated] forall(t, 0, range_i, allocated(sent(cSNPs)[t].snps))
 //@     invariant forall(t, 0, range_i, len(recv(cFR)[t].Seq) == len(refSeq) && sent(cSNPs)[t].idx == recv(cFR)[t].Idx && sent(cSNPs)[t].queryname == recv(cFR)[t].ID)
 //@   loop 2:
 //@     invariant len(SNPs) == count(k, 0, i, (refSeq[k] & FR.Seq[k]) < 16)
 //@     invariant forall(j, 0, i, implies((refSeq[j] & FR.Seq[j]) < 16, SNPs[count(k, 0, j, (refSeq[k] & FR.Seq[k]) < 16)] == DA[refSeq[j]] + itoa(j+1) + DA[FR.Seq[j]]))
+//@   before send#2: assert [c12.own.slices] forall(t, 0, len(sent(cSNPs)), disjoint(sent(cSNPs)[t].snps, SL.snps))
 //@   before send#2: assert [line.len] len(SL.snps) == count(k, 0, len(refSeq), (refSeq[k] & FR.Seq[k]) < 16)
 //@   before send#2: assert [line.content] forall(j, 0, len(refSeq), implies((refSeq[j] & FR.Seq[j]) < 16, SL.snps[count(k, 0, j, (refSeq[k] & FR.Seq[k]) < 16)] == DA[refSeq[j]] + itoa(j+1) + DA[FR.Seq[j]]))
 //@   ensures implies(len(sent(cErr)) == 0, len(sent(cSNPs)) == len(recv(cFR)))
